@@ -18,8 +18,8 @@ Theorem C12_footprint_local :
   forallb (fun w => match snd w with WShared => false | _ => true end) WRITES = true /\
   List.length (filter (fun w => match snd w with WCounter => true | _ => false end) WRITES) = 1 /\
   REQ_ID_SOURCE = "itertools.count()" /\
-  REQ_INNER_TMPL_LINES = ["def process_request({all_args}):"; "__traceback_hide__ = True"; "context = endpoint({endpoint_args})";
-                          "if isinstance(context, BaseResponse):"; "resp = context"; "else:"; "resp = render({render_args})"; "return resp"].
+  REQ_INNER_TMPL_LINES = ["def process_request({all_args}):"; "{hide_tb}"; "context = {endpoint}({endpoint_args})";
+                          "if isinstance(context, {base_response}):"; "resp = context"; "else:"; "resp = {render}({render_args})"; "return resp"].
 Proof. repeat split; vm_compute; reflexivity. Qed.
 Print Assumptions C12_footprint_local.
 
